@@ -9,8 +9,7 @@ from gen.C06 import Q, mk, cases, _prior_and_pair
 RULE = ("the pairs of C06 (119-term universe incl. lists with tail variables, [] and $_, under 18 prior substitutions), each "
         "unified in both orders, as written and with one side carrying fresh variable ids (head/goal form); pairs that need "
         "an occurs check are not generated. Relation on the implementation's own results: both orders agree on success, and "
-        "on success the resolved values of all six variables agree up to renaming of unbound variables (compared when no `$_` "
-        "occurs in them). Non-trivial = both orders succeed and bind something.")
+        "on success the resolved values of all six variables agree up to renaming of unbound variables (a `$_` inside a value counts as a constant). Non-trivial = both orders succeed and bind something.")
 
 def nontrivial(case, tag, result):
     return tag in ("pair-swapped", "goal-head") and "(ok (some" in result and "(ss -" in result or "(ss (" in result
@@ -34,7 +33,7 @@ def relations(cases, impl):
             try:
                 v1 = [refunify.norm(refunify.to_r(x)) for x in p1[2][0][2:]]
                 v2 = [refunify.norm(refunify.to_r(x)) for x in p2[2][0][2:]]
-                if not any(refunify.has_anon(t) for t in v1 + v2):
+                if True:       # `$_` inside a value is compared like a constant
                     REL_STATS["values_compared"] += 1
                     if refunify.canon(v1) != refunify.canon(v2):
                         why = "the two orders give different resolved values: %s vs %s" % (refunify.canon(v2), refunify.canon(v1))
